@@ -426,8 +426,18 @@ func c16R5(p *Prog, r *Report) {
 				continue
 			}
 			if cs.Fn.Name() == "Flush" && len(cs.Call.Args) == 0 {
-				if sel, ok := ast.Unparen(cs.Call.Fun).(*ast.SelectorExpr); ok && objOf(qinfo, sel.X) == fq.ParamObj(3) {
-					flush[cs.V] = true
+				// the writer that req.Write was given (by identity of the variable, whatever its position)
+				if sel, ok := ast.Unparen(cs.Call.Fun).(*ast.SelectorExpr); ok && writeV >= 0 {
+					if wo := objOf(qinfo, sel.X); wo != nil {
+						ast.Inspect(fq.G.V[writeV].Node, func(n ast.Node) bool {
+							if c, isC := n.(*ast.CallExpr); isC && len(c.Args) == 1 && objOf(qinfo, c.Args[0]) == wo {
+								if fn := Callee(qinfo, c); fn != nil && fn.Name() == "Write" {
+									flush[cs.V] = true
+								}
+							}
+							return true
+						})
+					}
 				}
 			}
 			if cs.Fn.Name() == "ReadRequest" {
